@@ -338,7 +338,7 @@ Definition px_project (q : pquirks) (ops : list (string * expr)) (gb : list stri
   let drop := Nat.ltb (List.length gb) 1 || Nat.leb (nrows (xf_tab xf)) 0 in
   res <- (if drop then Some (xf_tab xf)
           else match xf_index xf with
-               | Some gk => pd_frame_of_gseries gb gk (map (fun c => (c, getcol (xf_tab xf) c)) (cols (xf_tab xf)))
+               | Some gk => pd_reset_index_insert gb gk (xf_tab xf)
                | None => None                                  (* a default index would be inserted as a column "index": not reachable *)
                end) ;;
   let missing_group_cols := set_diff (py_set gb) (cols res) in
@@ -447,6 +447,52 @@ Definition px_concat (idc : option string) (an bn : string) (left right : table)
   if Nat.ltb (nrows lf) 1 then Some rt
   else if Nat.ltb (nrows rt) 1 then Some lf
   else Some (clean_copy (pd_concat_rows lf rt)).
+
+(* ------------------------------------------------------------------ what the builders guarantee (guard of the theorems) *)
+(* Facts about a pipeline that the node constructors of view_representations.py enforce (C26) and that the theorems of
+   Props/PEXEC.v use as their well-formedness premise; harness/props/PEXEC.py evaluates it on every builder-accepted case.
+     every node    : declared columns distinct and not empty (ViewRepresentation.__init__)
+     extend        : output names distinct (a dict), at least one; windowed: outputs are not partition / order columns, a window
+                     term is fn() / fn(column, literals) / fn(literal, literals), its column exists and is no OTHER term's output,
+                     partition and order columns exist; any_value (mapped to "first", not modelled by Sem.win_fn) excluded
+     project       : group columns exist; an aggregate reads an existing column or a constant; the only zero-argument aggregate is _size()
+     map_columns   : the renaming does not merge two columns
+     natural_join  : keys exist, as many left as right; a left key that is also a column of the right table is paired with itself
+                     (otherwise the listed finding C16-pandas-overlap-leftover-column applies)
+     concat_rows   : both sides declare the same column set *)
+Definition agg_ok_b (cs : list string) (e : expr) : bool :=
+  match agg_shape e with
+  | Some (fn, Some (WCol c)) => mem c cs
+  | Some (fn, Some (WConst _)) => true
+  | Some (fn, None) => String.eqb fn "_size"
+  | None => true
+  end.
+Definition win_ok_b (cs keys : list string) (ke : string * expr) : bool :=
+  match win_shape (snd ke) with
+  | Some (fn, Some (WCol c), _) => mem c cs && (negb (mem c keys) || String.eqb c (fst ke)) && negb (String.eqb fn "any_value")
+  | Some (fn, Some (WConst _), _) => negb (String.eqb fn "any_value")
+  | Some (fn, None, _) => true
+  | None => false
+  end.
+Definition join_keys_clean (ca cb on_a on_b : list string) : bool :=
+  subset on_a ca && subset on_b cb && Nat.eqb (List.length on_a) (List.length on_b)
+  && forallb (fun p => negb (mem (fst p) cb) || String.eqb (fst p) (snd p)) (combine on_a on_b).
+Fixpoint wf_op_b (p : op) : bool :=
+  nodup_names (column_names p) && negb (Nat.eqb (List.length (column_names p)) 0) &&
+  match p with
+  | OTable _ _ => true
+  | OExtend s ops wd w =>
+      wf_op_b s && nodup_names (map fst ops) && negb (Nat.eqb (List.length ops) 0) &&
+      (if wd || Nat.ltb 0 (List.length (w_part w)) || Nat.ltb 0 (List.length (w_order w))
+       then disjointb (map fst ops) (w_part w ++ w_order w) && subset (w_part w ++ w_order w) (column_names s)
+            && forallb (win_ok_b (column_names s) (map fst ops)) ops
+       else true)
+  | OProject s ops gb => wf_op_b s && subset gb (column_names s) && forallb (fun ke => agg_ok_b (column_names s) (snd ke)) ops
+  | OSelectRows s _ | OSelectCols s _ | ODropCols s _ | ORename s _ | OOrder s _ _ _ => wf_op_b s
+  | OMapCols s m _ => wf_op_b s && nodup_names (map (rename_col m) (column_names s))
+  | OJoin a b on_a on_b _ => wf_op_b a && wf_op_b b && join_keys_clean (column_names a) (column_names b) on_a on_b
+  | OConcat a b _ _ _ => wf_op_b a && wf_op_b b && set_eqb (column_names a) (column_names b)
+  end.
 
 (* ------------------------------------------------------------------ eval: _eval_value_source over the operator tree *)
 Fixpoint pexec_gen (q : pquirks) (p : op) (e : env) : option table :=
